@@ -29,7 +29,8 @@ view == <<gen, ev>>     \* the outcome is an output, not part of the state the h
 \*   "shared" the caller keeps ONE operation object and registers it with every generator he creates or re-initialises
 \*            (operations are held by shared pointer): OpUsers are then all live generators, and whatever Destroy or
 \*            ResetReinit of one of them does to the object is seen by the others.
-OpModes == {"none", "own", "shared"}
+\*   "pair"   every generator is given TWO operation objects of its own whose order matters (registration order = application order)
+OpModes == {"none", "own", "shared", "pair"}
 OpUsers(mode) == IF mode = "shared" THEN {g \in Gens : gen[g].st = "init"} ELSE {}
 
 Absent == [st |-> "absent", cfg |-> "none", prev |-> "none", shots |-> "none"]
